@@ -76,9 +76,9 @@ class Env:
             e = std.deref_all(ex, args[0])
             if isinstance(e, Obj) and e.kind == "expr":
                 return Fut("eval", e.key)
-            if getattr(self, "inline_root", None) is not None and e is self.inline_root:
-                return NotImplemented
-            raise Unsupported(f"eval_rec on a non-leaf expression {e}")
+            if isinstance(e, Agg):
+                return NotImplemented          # a structured node: execute the real evaluator on it
+            raise Unsupported(f"eval_rec on {e}")
         if c.startswith("<value::Value as std::clone::Clone>::clone"):
             ex.prog.stats.setdefault("std_models", set()).add("Value::clone = same value (derived Clone; contract)")
             v = std.deref_all(ex, args[0])
